@@ -5,6 +5,8 @@ from vf import Case
 from props.c10 import hx, spec
 
 TYPES = {'@t': '"s"', '@u': '1', '@o': '{\n  "z": 1\n}',
+         # string types whose example has escapes at its ends (used as key shortcuts by C08)
+         '@q': '"say \\"hi\\""', '@qq': '"\\""', '@bs': '"back\\\\"',
          # recursive types: through an optional member, and through a type choice (used by C08's class `recursive`)
          '@r': '{\n  "next": @r, // {optional: true}\n  "id": 1\n}', '@l': '{\n  "x": 1,\n  "next": @l | @u\n}'}
 RULES = {'@e': '["abc", 5, null]'}
@@ -168,19 +170,45 @@ class Layout:
         a = self.ann(n[1])
         if not kids and not a and self.rng.random() < 0.5:
             return opener + self.sp('') + closer + self.sp('') + tail + self.comment()
-        out = opener + a + self.comment() + nl
+        if not kids and a and self.rng.random() < 0.5:
+            # an empty container on one line (blanks between the brackets or none), its annotation after it
+            v = opener + self.rng.choice(['', '', ' ', '  ', '\t']) + closer
+            if a.lstrip().startswith('/*') and self.rng.random() < 0.5:
+                return v + a + self.sp('') + tail + self.comment()
+            if tail and self.rng.random() > self.comma_after:
+                return v + a + nl + ind + tail
+            return v + self.sp('') + tail + a + self.comment()
+        head = opener + a + self.comment()
         ind2 = ind + self.rng.choice(['  ', '    ', '\t']) if self.pad else ind + '  '
+        pieces = []
         for i, k in enumerate(kids):
-            out += self.block_comment(ind2)
             t = ',' if i + 1 < len(kids) else ''
             if n[0] == 'A':
-                out += ind2 + self.node(k, ind2, t) + nl
+                pieces.append(self.node(k, ind2, t))
             else:
                 key, val = k
                 kt = key[1]
-                out += ind2 + kt + self.sp('') + ':' + self.sp(' ') + self.node(val, ind2, t) + nl
-            if self.rng.random() < self.pad * 0.3:
+                pieces.append(kt + self.sp('') + ':' + self.sp(' ') + self.node(val, ind2, t))
+        # a ### block comment ### may stand between two values of one line (no annotation may follow on that line: rule 804)
+        plain = lambda x: '//' not in x and '/*' not in x and '#' not in x and nl not in x
+        out = head
+        same_line = False
+        if pieces and not a and '#' not in head and plain(pieces[0]) and self.rng.random() < self.comments * 0.7:
+            out += ' ### after the bracket ### '
+            same_line = True
+        else:
+            out += nl
+        for i, piece in enumerate(pieces):
+            if not same_line:
+                out += self.block_comment(ind2) + ind2
+            out += piece
+            same_line = (i + 1 < len(pieces) and plain(piece) and plain(pieces[i + 1]) and self.rng.random() < self.comments * 0.7)
+            if same_line:
+                out += self.rng.choice([' ### remark ### ', ' ###x###', ' ### a' + nl + ind2 + ' b ### '])
+            else:
                 out += nl
+                if self.rng.random() < self.pad * 0.3:
+                    out += nl
         return out + ind + closer + self.sp('') + tail + self.comment()
 
     def text(self, n):
@@ -223,7 +251,10 @@ def gen_model(rng, depth=0, prop=False):
             elif c < 0.6:
                 rules = [('enum', ('l', [('s', v), ('s', '"x"'), ('s', 'null')][:rng.randint(1, 3)]))]
             elif c < 0.75:
-                rules = [('or', ('l', [('o', [('type', ('s', '"integer"')), ('min', ('s', '-100'))]), ('s', '"string"'), ('o', [('type', ('s', '"@t"'))])][:rng.randint(2, 3)]))]
+                alts = [('o', [('type', ('s', '"integer"')), ('min', ('s', '-100'))]), ('s', '"string"'), ('o', [('type', ('s', '"@t"'))])][:rng.randint(2, 3)]
+                if rng.random() < 0.4:      # an enum inside a rule-set: its name may be quoted and padded like every rule name
+                    alts.insert(rng.randrange(len(alts) + 1), ('o', [('type', ('s', '"enum"')), ('enum', ('l', [('s', v), ('s', '"x"')]))]))
+                rules = [('or', ('l', alts))]
             elif c < 0.85:
                 rules = [('const', ('s', rng.choice(['true', 'false'])))]
             elif c < 0.93:
